@@ -1012,6 +1012,14 @@ def edge_specs(rng):
             out.append(("zero-jacobian-column", edge_spec(rng, 4, 3, 1, extra_par=1, non_negative=nn, method=method)))
     for method in METHODS_ALL:
         out.append(("max-nfev-1", edge_spec(rng, 5, 3, 1, max_nfev=1, method=method)))
+    # a free parameter boxed tightly around its start value: the optimiser runs into a bound and ends on it (the parameter
+    # is still a free parameter: a Jacobian column, a covariance row, one degree of freedom)
+    for method in ("TrustRegionReflection", "Dogbox"):
+        for free in (1, 2):
+            s = edge_spec(rng, 5, 4, free, max_nfev=8, method=method)
+            w = rng.choice([0.03125, 0.0625])
+            s["bounds"] = {"p.1": [s["parameters"]["p.1"] - w, s["parameters"]["p.1"] + w]}
+            out.append(("active-bound", s))
     return out
 
 
